@@ -225,6 +225,7 @@ func init() {
 			{"dead-update", "no struct-typed local is assigned and field-updated without ever being read, passed on or returned (a modified copy that is lost while the stale original goes on being used)", func(c *Ctx) { ruleDeadUpdate(c, "pkg/core/storage", "pkg/core/dao") }},
 			{"check-all-loop", "a loop that rejects on a property of each element with an error return is not left early with a break (the elements after it would escape the check)", func(c *Ctx) { ruleCheckAllLoop(c, "pkg/core/storage", "pkg/core/dao") }},
 			{"limit-exclusive", "a backend scan loop that admits a key equal to the range limit (the first key after the prefix) also requires the prefix", ruleLimitExclusive},
+			{"seek-snapshot-atomic", "a range scan that merges a snapshot of the cache with a scan of the lower store starts the lower scan inside the critical section in which the snapshot was taken (known finding: it does not)", ruleSeekSnapshotAtomic},
 			{"lock-pairing", "in pkg/core/storage every mutex acquired is released on every exit (conditional wrappers analysed for shared stores; the isSync-correlated unlock/relock of persist included)", func(c *Ctx) { lockPairingPkgs(c, []string{stPkg}, storageAssume, 10) }},
 			{"lockset", "every access of mem/stor/ps of a shared MemoryStore/MemCachedStore happens under the store's mutex (write lock for writes) or in a caller-holds-lock function whose call sites hold it; a function that reads a cache map and ps for one answer does so in one critical section; seek gets matching lockers", ruleStoreLockset},
 			{"swap-order", "persist replaces mem/stor/ps only under the write lock inside the plock bracket, installs the tempstore before the lower write, restores ps only after it returned, and merges concurrent writes into both old maps on failure", ruleSwapOrder},
